@@ -194,4 +194,15 @@ var translatorShapes = []string{
 	"match (a)-[:E]->(b) where any(x in b.l where x = a.v) return a",
 	"match (a) return case when a.x = 1 then 'one' else 'other' end as label",
 	"match (a)-[:E]->(b) return a, collect(distinct b) as bs, count(distinct b) as c",
+	"match (n)-[r]->(m)-[q]->(o {name: n.name}) return o",
+	"match (n)-[r:E]->(m {v: n.v}) return m",
+	"match (n)-[r:E {w: n.w}]->(m) return m",
+	"match (n)-[:E*1..]->(m {name: n.name}) return m",
+	"match (n) match (m {name: n.name}) return m",
+	"match (n {}) return n",
+	"match (n)-[r:E {}]->(m {}) return r",
+	"match (n) where n.a = 1 match (m) where m.b = n.a match (o) where o.c = m.b return o",
+	"match (a)-[:E]->(b) where (a)-[:E]->(b) return a",
+	"match p = (a)-[r]->(b) where (b)-[:E]->(:K) return p",
+	"match p = (a)-[:E*1..]->(b) where not (b)-[:E]->() return p",
 }
